@@ -13,6 +13,7 @@ find_referenced_templates every branch for a non-constant template expression yi
 from __future__ import annotations
 
 import ast
+import re
 
 from .. import astq
 from ..core import Ctx
@@ -68,12 +69,13 @@ def check(ctx: Ctx) -> str:
     ctx.check(ok, "tracking:constant", "meta:TrackingCodeGenerator.enter_frame", "resolve instruction constant", f"the tracking generator must test action == {const!r} (idtracking.VAR_LOAD_RESOLVE)", ef.loc())
     adds = [c for c in astq.calls(ef.node) if astq.callee(c) == "self.undeclared_identifiers.add"]
     ctx.need(len(adds) == 1, "undeclared_identifiers.add(...) not found exactly once")
-    conds: list[str] = []
-    for g, pol in astq.all_guards(ef.node, adds[0]):
-        parts = g.values if isinstance(g, ast.BoolOp) and isinstance(g.op, ast.And) and pol else [g]
-        for part in parts:
-            conds.append(("" if pol else "not ") + ast.unparse(part))
-    allowed = {"action == 'resolve'", "action == VAR_LOAD_RESOLVE", "param not in self.environment.globals"}
+    # the path condition as signed atoms (a `continue` guard, a nested if and an `and` are the same)
+    conds = []
+    pair_ = pair or ("action", "param")
+    for txt_, pol_ in astq.guard_atoms(ef.node, adds[0]):
+        t2 = re.sub(rf"\b{pair_[0]}\b", "action", re.sub(rf"\b{pair_[1]}\b", "param", txt_))
+        conds.append(("" if pol_ else "not ") + t2)
+    allowed = {"action == 'resolve'", "action == VAR_LOAD_RESOLVE", "not param in self.environment.globals", "param not in self.environment.globals"}
     extra = [c for c in conds if c not in allowed]
     ctx.check(not extra and any("action ==" in c for c in conds), "tracking:guards-exact", "meta:TrackingCodeGenerator.enter_frame", f"extra conditions {extra} before recording a name",
               f"a context lookup is recorded only under {conds}; every condition beyond `action == resolve` and `not an environment global` ({extra}) hides names that the generated code still resolves from the render context at run time", ef.loc(adds[0]), detail={"conditions": conds})
